@@ -4,6 +4,10 @@ import json, os
 ROOT = os.path.dirname(os.path.dirname(os.path.abspath(__file__)))
 ALL = ["C%02d" % i for i in range(1, 20)]
 CHECKS = {
+ "C14": dict(cat="model_checking", ref="§4 C14",
+   technique="exhaustive enumeration of pre-step states for the three real trace renderers with a parsing oracle (address, bytes, mnemonic, operand digits, addressing-mode features, branch target, register/flag columns) plus every logged RunUntil scenario against an unlogged hand-stepped twin",
+   text="Truthfulness: every case of the fetch/operation/flag/frame sweeps, all 256 displacements of every rel8 opcode and a rel16 boundary set are rendered by cpu65c816.DisassembleCurrentPC, cpualt.DisassembleCurrentPC and cpualt.Disassemble and each line is parsed and compared with the pre-step state and image; the call must leave registers, flags, cycles and memory untouched. Non-perturbation: every RunUntil scenario (programs to depth 2/3, all targets, budgets) with a plain and a Reserve/Commit logger must end exactly like the unlogged twin and contain exactly one truthful line per instruction about to execute.",
+   note="Cosmetic syntax is not pinned (spacing, case, 'Sn'); structural operand features are. Same stated alphabets as C02."),
  "C12": dict(cat="model_checking", ref="§4 C12",
    technique="explicit-state exploration: cycle/stop oracles on every enumerated Step of both real interpreters and along every instruction sequence (incl. past STP and Reset); every program to depth 3 x target x budget executed through the real System.RunUntil against a hand-stepped twin System, with program-counter callbacks as observers and non-termination guard",
    text="Step part: the C02 sweeps and program search with the oracle cycles >= 1, AllCycles grows by exactly the reported count, stop status true from STP until Reset and never before, OnWDM receives exactly the operand (all 256). RunUntil part: all programs up to depth 3 over a 16-instruction alphabet (loops, STP, block moves, calls) in WRAM and ROM, every instruction boundary / inside-operand / unreachable / other-bank target, budgets {0,1,2,3,5,8,13,50}: result, final CPU state and memory must equal a twin System stepped by hand, callbacks must run exactly once per fetch with the pre-instruction state, and a run that executes more than budget+3 instructions is reported instead of hanging.",
